@@ -2,7 +2,8 @@
     Tables GENERATED from operations.py (Gen/OpsTable.v); evaluator of Model/Core.v. *)
 From Coq Require Import List Arith Bool Reals Lra.
 From Coquelicot Require Import Coquelicot.
-From QV Require Import Base.RealOps Gen.OpsTable Model.Core Model.CoreQ Proofs.OpsRules Proofs.CoreLists Proofs.CoreR Proofs.CoreQFast.
+From Coq Require Import QArith Qreals.
+From QV Require Import Base.RealOps Base.QOps Gen.OpsTable Model.Core Model.CoreQ Proofs.OpsRules Proofs.CoreLists Proofs.CoreR Proofs.CoreQFast Proofs.QROps Proofs.QRCore.
 Import ListNotations.
 Local Open Scope R_scope.
 
@@ -48,6 +49,17 @@ Print Assumptions C01_x_minus_x.
 Theorem C01_x_div_x : forall rho v e, v <> 0 -> rerr2 rho [ODer (FB DIV (RObj 0) (RObj 0)); OMeas v e] 1 = 0.
 Proof. exact x_div_x_zero. Qed.
 Print Assumptions C01_x_div_x.
+
+(** what the correspondence EXECUTES is what the theorems are about: on a rational object list, every value,
+    variance and source list the executed instance (over option Q) computes is the rational image of what
+    the real-number instance defines *)
+Theorem C01_executed_is_model : forall (lq : list (obj Q)) (rq : nat -> nat -> oq) (rr : nat -> nat -> R) k,
+  (forall i j, rel (rq i j) (rr i j)) ->
+  (forall x, qvalue (injQ lq) k = Some x -> rvalue (injR lq) k = Q2R x) /\
+  (forall x, qerr2 rq (injQ lq) k = Some x -> rerr2 rr (injR lq) k = Q2R x) /\
+  qsources (injQ lq) k = sources R (injR lq) k.
+Proof. exact executed_is_model. Qed.
+Print Assumptions C01_executed_is_model.
 
 (** the table-sharing checker that the correspondence runs decides exactly the specification check
     (model value / variance / sources / derivatives of Model/Core.v against the observations) *)
